@@ -421,6 +421,7 @@ def run(ctx):
     function_scopes_hang_under_the_declarators_scope(ctx)
     nullable_members_are_ordered_when_only_one_is_null(ctx)
     identity_compares_whole_members(ctx)
+    pointer_members_are_compared_by_value_too(ctx)
     rebuild_rules(ctx, "R06.5")
     changed_flag_rules(ctx, "R06.6")
     ctx.rule("R06.1", "every field a (non-copy) constructor initialises from a parameter is read by the class's structural is_less() and is_equal()")
@@ -897,7 +898,7 @@ def function_scopes_hang_under_the_declarators_scope(ctx):
     ctx.floor("R06.15", "function scopes made by the grammar", n, 5)
 
 
-def nullable_members_are_ordered_when_only_one_is_null(ctx):
+def nullable_members_are_ordered_when_only_one_is_null(ctx, rid="R06.16", names=("::is_less",), floor=3):
     """R06.16: CPPType::new_type() interns types in a std::set ordered by is_less(); two types are ONE type if neither is
     less than the other.  Where a member pointer may be null (an array without a bound, a function type without an owner
     class) is_equal() says "different" when exactly one side is null - so is_less() must order that case too, with a
@@ -906,10 +907,10 @@ def nullable_members_are_ordered_when_only_one_is_null(ctx):
     (Seed S9-C06: CPPArrayType::is_less lost its `(_bounds == nullptr) != (ot->_bounds == nullptr)` branch.)"""
     from . import gates as G
     db = ctx.db
-    ctx.rule("R06.16", "in every is_less() of the parser's declaration classes, a member that the function tests against nullptr is also ordered at pointer level: some return compares the member of this with the member of the other object (or their nullness) without dereferencing")
+    ctx.rule(rid, "in every is_less() of the parser's declaration classes, a member that the function tests against nullptr is also ordered at pointer level: some return compares the member of this with the member of the other object (or their nullness) without dereferencing")
     n = 0
     for f in db.functions:
-        if not f.name.endswith("::is_less") or "/cppparser/" not in f.file:
+        if not f.name.endswith(tuple(names)) or "/cppparser/" not in f.file:
             continue
         nullable = {}
         for y in f.walk():
@@ -936,10 +937,10 @@ def nullable_members_are_ordered_when_only_one_is_null(ctx):
                     for p_, q_ in ((x, y), (y, x)):
                         if p_ is not None and q_ is not None and p_.get("k") == "mem" and p_.get("n") == fl and q_.get("k") == "nullp":
                             ok = True   # `return ot->_m != nullptr;` style
-            ctx.ob("R06.16", "%s|%s|ordered-when-one-side-is-null" % (f.name, fl.split("::")[-1]), ok, f.loc(where),
+            ctx.ob(rid, "%s|%s|ordered-when-one-side-is-null" % (f.name, fl.split("::")[-1]), ok, f.loc(where),
                    "a return orders the two objects by the pointers themselves" if ok else
                    "%s is tested against nullptr but no return orders an object that has it against one that has not" % fl.split("::")[-1])
-    ctx.floor("R06.16", "nullable members in is_less functions", n, 3)
+    ctx.floor(rid, "nullable members in ordering functions", n, floor)
 
 
 def _masked_member_comparisons(f):
@@ -973,3 +974,75 @@ def identity_compares_whole_members(ctx):
         ctx.ob("R06.17", "%s|whole-members" % f.name, not bad, f.loc(bad[0]) if bad else f.loc(),
                "members are compared whole" if not bad else "`%s`: part of the member is excluded from the type's identity" % show(bad[0])[:70])
     ctx.floor("R06.17", "identity functions examined", n, 25)
+
+
+def pointer_members_are_compared_by_value_too(ctx):
+    """R06.18: a pointer member that takes part in a type's identity must be able to tell two DIFFERENT non-null values
+    apart.  `if ((m == nullptr) != (ot->m == nullptr)) return m < ot->m;` orders "has one" against "has none" and then
+    lets any two types that both have one tie.  For every pointer member that an is_equal()/is_less() of the parser's
+    classes mentions, some comparison of the member of this with the member of the other object (the pointers, or the
+    pointees) stands outside a "nullness differs" branch.  (Seed S11-C06: the default type of a template type parameter
+    compared by presence only; a later template silently inherited an earlier template's default argument.)"""
+    from . import gates as G
+    db = ctx.db
+    ctx.rule("R06.18", "in every is_equal()/is_less() of the parser's declaration classes, each pointer member mentioned is compared with the other object's (pointer or pointee) somewhere outside a branch taken only when exactly one of the two is null")
+
+    def member_of(n):
+        n = strip_casts(peel(n)) if n is not None else None
+        if n is not None and n.get("k") == "un" and n.get("op") == "*":
+            n = strip_casts(peel(n.get("e")))
+        if n is not None and n.get("k") == "call" and callee_short(n) in ("operator*",) and n.get("a"):
+            n = strip_casts(peel(n["a"][0]))
+        if n is not None and n.get("k") == "mem" and (n.get("t") or "").rstrip().endswith("*"):
+            b = strip_casts(peel(n.get("b")))
+            return n.get("n"), (b is not None and b.get("k") == "this")
+        return None, None
+
+    def nullness_differs(c):
+        c = strip_casts(peel(c)) if c is not None else None
+        if c is None or c.get("k") != "bin" or c.get("op") not in ("!=", "^"):
+            return False
+        def is_null_test(x):
+            x = strip_casts(peel(x)) if x is not None else None
+            ca = G.cmp_atom(x) if x is not None and x.get("k") == "bin" else None
+            return bool(ca) and any((strip_casts(peel(z)) or {}).get("k") == "nullp" for z in ca[1:] if z is not None)
+        return is_null_test(c.get("x")) and is_null_test(c.get("y"))
+    n = 0
+    for f in db.functions:
+        if "/cppparser/" not in f.file or not (f.name.endswith("::is_equal") or f.name.endswith("::is_less")):
+            continue
+        mentioned = {}
+        for y in f.walk():
+            if y.get("k") == "mem" and (y.get("t") or "").rstrip().endswith("*") and (y.get("n") or "").split("::")[-1].startswith("_"):
+                b = strip_casts(peel(y.get("b")))
+                if b is not None and b.get("k") == "this":
+                    mentioned.setdefault(y["n"], y)
+        for m, where in sorted(mentioned.items()):
+            comps = []
+            for y in f.walk():
+                x_, y_ = None, None
+                if y.get("k") == "bin" and y.get("op") in ("==", "!=", "<", ">"):
+                    x_, y_ = y.get("x"), y.get("y")
+                elif y.get("k") == "call" and callee_short(y) in ("operator==", "operator!=", "operator<") and (len(y.get("a", [])) == 2 or ("this" in y and y.get("a"))):
+                    ops = ([y["this"]] if "this" in y else []) + list(y["a"])
+                    x_, y_ = ops[0], ops[1]
+                if x_ is None:
+                    continue
+                (m1, t1), (m2, t2) = member_of(x_), member_of(y_)
+                if m1 == m and m2 == m and t1 != t2:
+                    comps.append(y)
+            if not comps:
+                continue        # the member is only read for another purpose
+            n += 1
+            free = []
+            for c in comps:
+                gated = False
+                for a in f.ancestors(c):
+                    if a.get("k") == "if" and any(z is c for z in walk(a.get("then") or {})) and nullness_differs(a["c"]):
+                        gated = True
+                if not gated:
+                    free.append(c)
+            ctx.ob("R06.18", "%s|%s|compared-by-value" % (f.name, m.split("::")[-1]), bool(free), f.loc(where),
+                   "two different non-null values of %s are told apart" % m.split("::")[-1] if free else
+                   "%s is compared only where exactly one side is null: two objects that both have one tie" % m.split("::")[-1])
+    ctx.floor("R06.18", "pointer members compared in identity functions", n, 20)
